@@ -66,7 +66,7 @@ def run(tier: str, seed: int) -> int:
     validate_traces(chk, traces, site="random-history")
 
     # ---- canaries: the binding must reject a corrupted observation
-    canary_trace(chk, traces[0])
+    canary_trace(chk, traces)
     return chk.finish()
 
 
